@@ -289,10 +289,13 @@ structure Dev where
   /-- N2: the argument list bound to a rest parameter is always comma-separated, even when the
       caller spread a space-separated list (`f($list...)`; visitor.rs:2308 / serializer.rs:938). -/
   restAlwaysComma : Bool := false
+  /-- N4: `@debug`, `@warn` and `@error` deliver a quoted string WITH its quotes (visitor.rs:1043
+      `inspect`, :1594 `to_css_string`, :1343 `inspect`); the Sass rules deliver a string's text. -/
+  messageKeepsQuotes : Bool := false
 deriving Repr, DecidableEq, Inhabited
 
 def Dev.spec : Dev := {}
-def Dev.asFound : Dev := { emptyListDeclDropped := true, restAlwaysComma := true }
+def Dev.asFound : Dev := { emptyListDeclDropped := true, restAlwaysComma := true, messageKeepsQuotes := true }
 
 structure Ctx where
   dev : Dev
@@ -727,6 +730,15 @@ def asList : Value → List Value
   | .map ps => ps.map fun (k, v) => .list [k, v] .space false
   | v => [v]
 
+/-- The text `@debug` / `@error` (`inspect := true`) and `@warn` deliver: a string's text, any
+    other value printed. -/
+def messageText (dev : Dev) (inspect : Bool) (v : Value) : Except PrintErr String :=
+  match v with
+  | .str s _ =>
+    if dev.messageKeepsQuotes then (if inspect then v.inspect else v.toCss)
+    else if plainText s then .ok s else .error .unsupported
+  | _ => if inspect then v.inspect else v.toCss
+
 def stmtF (r : Rec) (ctx : Ctx) : Stmt → M (Option Value)
   | .decl prop e => do
     if ctx.sel.isEmpty then fail .declOutsideRule else
@@ -818,17 +830,17 @@ def stmtF (r : Rec) (ctx : Ctx) : Stmt → M (Option Value)
           pure none
   | .debug e => do
     let v ← r.expr ctx e
-    let s ← liftPrint v.inspect
+    let s ← liftPrint (messageText ctx.dev true v)
     logMsg "debug" s
     pure none
   | .warn e => do
     let v ← r.expr ctx e
-    let s ← liftPrint v.toCss
+    let s ← liftPrint (messageText ctx.dev false v)
     logMsg "warn" s
     pure none
   | .error e => do
     let v ← r.expr ctx e
-    let s ← liftPrint v.inspect
+    let s ← liftPrint (messageText ctx.dev true v)
     logMsg "error" s
     fail .userError
 
@@ -1114,9 +1126,9 @@ def outcomeStr : Outcome → String
   | .failed e st => "ok err " ++ errStr e ++ " | " ++ stStr st
   | .outOfFuel => "ok out-of-fuel"
 
-/-- `e` = emptyListDeclDropped, `r` = restAlwaysComma; `-` = the specification. -/
+/-- `e` = emptyListDeclDropped, `r` = restAlwaysComma, `q` = messageKeepsQuotes; `-` = the specification. -/
 def parseDev (s : String) : Dev :=
-  { emptyListDeclDropped := s.contains 'e', restAlwaysComma := s.contains 'r' }
+  { emptyListDeclDropped := s.contains 'e', restAlwaysComma := s.contains 'r', messageKeepsQuotes := s.contains 'q' }
 
 def handle : List String → String
   | "run" :: fuel :: dev :: ts =>
